@@ -24,7 +24,7 @@ RULE = ("Hypothesis-generated expression DAGs (<=10 nodes, earlier nodes reusabl
         "(operator x orientation x operand type); oracle = mirror evaluator (value and exact type, or exception class; recovery "
         "after the inputs are valid again) and, for watched nodes, a call carrying the fresh value whenever the plain value "
         "changed. Non-trivial = the DAG has a shared sub-expression or a where/bind/pipe node and the history reads a node, "
-        "updates an input and reads the node again; distinct = case hash.")
+        "updates an input and reads the node again; distinct = case hash. pipe functions may take an extra positional or keyword argument (one keyword is named reverse) and one pipe function returns True / 1 / 1.0 for different inputs (equal results of different type), with an enumerated table of its consumers read before and after the type moves.")
 ASSUMPTIONS = [
     "operand magnitudes are kept small by construction (shift amounts / exponents come from constants or nodes known to be small)",
     "the mirror evaluator is the oracle: Python's own operators applied to the current input values",
